@@ -8,6 +8,7 @@ CONSTANTS
   MaxAcc = 3
   MaxAfterEnd = 1
   EarlyDestroy = FALSE
+  PostIncMoves = TRUE
   Threaded = TRUE
-INVARIANTS TypeOK SameSequence SingleEOS ExceptionAtPosition ArgDelivered LocalsDestroyedOnce BlockedOnlyOnPending RecordClean TerminalOK
+INVARIANTS TypeOK SameSequence PayloadIntact SingleEOS ExceptionAtPosition ArgDelivered LocalsDestroyedOnce BlockedOnlyOnPending RecordClean TerminalOK
 CHECK_DEADLOCK FALSE
